@@ -64,6 +64,35 @@ class SCat:
     def copy(self):
         return SCat(self.codes.copy(), self.categories, self.ordered)
 
+    # the bits of the pandas.Categorical array interface cooler uses
+    def __getitem__(self, k):
+        r = self.codes[k]
+        if isinstance(r, SArr):
+            return SCat(r, self.categories, self.ordered)
+        if isinstance(r, SInt):
+            return self.categories[concretize(r)]
+        return self.categories[r] if r >= 0 else _np.nan
+
+    def _cmp(self, o, neg):
+        if isinstance(o, SCat) and list(o.categories) == list(self.categories):
+            return (self.codes != o.codes) if neg else (self.codes == o.codes)
+        if isinstance(o, str):
+            cats = list(self.categories)
+            c = cats.index(o) if o in cats else -2
+            return (self.codes != c) if neg else (self.codes == c)
+        raise Inconclusive("categorical comparison with " + type(o).__name__)
+
+    def __eq__(self, o):
+        return self._cmp(o, False)
+
+    def __ne__(self, o):
+        return self._cmp(o, True)
+
+    __hash__ = None
+
+    def __iter__(self):
+        return iter(self.to_real())
+
 
 def _is_opaque(col):
     return not isinstance(col, (SArr, SCat))
